@@ -174,6 +174,8 @@ def tok(opt, v, L):
     if isinstance(v, dict):
         if not v:
             return 'dict_empty'
+        if opt == 'sample_from' and all(isinstance(x, L['RealInterval']) and x.config == {'start': 1, 'stop': 5} for x in v.values()):
+            return 'dict_empty'     # "By default, each variable samples from RealInterval([1, 5]) (default {})"
         if set(v) == {'start', 'stop'}:
             return 'range:%s:%s' % (fmt_num(v['start']), fmt_num(v['stop']))
         if set(v) == {'is_raised', 'msg_detail'}:
@@ -274,6 +276,8 @@ def judge_config(part, cls, pairs, expect, defaults, L):
     first, second = construct_both(cls, pairs, L)
     probs = []
     obs = {'status': first[0], 'exc': first[1]}
+    if expect == 'skip':        # the documentation does not decide this configuration: observed for the evidence only
+        return probs, obs
     for form, r in (('dict', first), ('kwargs', second)):
         if r is None:
             continue
@@ -399,6 +403,8 @@ def observe_answers(cls, ans, L):
 
 def judge_answers(expect, canon, obs):
     probs = []
+    if expect == 'skip':
+        return probs
     for form, s, e in (('dict', obs['status'], obs['exc']), ('kwargs', obs['status_kw'], obs['exc_kw'])):
         if s == 'other':
             probs.append(('exception', 'non-config-exception:%s' % e, 'success or configuration/validation error',
@@ -417,6 +423,81 @@ def judge_answers(expect, canon, obs):
         if not obs['idempotent']:
             probs.append(('idempotent', 'not-idempotent', 'Cls(obj.config) == obj', obs['detail']))
     return probs
+
+
+# ---------------------------------------------------------------- answers of list graders
+def listans_value(la):
+    def alt_value(alt):
+        entries = [answers_value('StringGrader', e) for e in alt['entries']]
+        if alt['form'] == 'string':
+            return ','.join(entries)
+        if alt['form'] == 'list':
+            return entries
+        d = {'expect': entries}
+        if alt['grade'] != 'absent':
+            d['grade_decimal'] = GRADE[alt['grade']]
+        if alt['msg'] != 'absent':
+            d['msg'] = MSGV[alt['msg']]
+        return d
+    vals = [alt_value(a) for a in la['alts']]
+    return vals[0] if la['bare'] else tuple(vals)
+
+
+def project_listans(cls, answers):
+    if not isinstance(answers, tuple):
+        return 'bad', 'answers is %s, not a tuple' % type(answers).__name__
+
+    def entries(lst):
+        if not isinstance(lst, list):
+            raise ValueError('expected a list of answers, found %s' % type(lst).__name__)
+        out = []
+        for e in lst:
+            st, proj = project_answers('StringGrader', e)
+            if st == 'bad':
+                raise ValueError('list entry: ' + proj)
+            out.append(proj)
+        return out
+    res = []
+    try:
+        for a in answers:
+            if cls == 'ListGrader':
+                res.append(entries(a))
+                continue
+            if not isinstance(a, dict) or set(a) != {'expect', 'grade_decimal', 'msg', 'ok'}:
+                return 'bad', 'entry is not a dictionary with keys expect, grade_decimal, msg, ok'
+            if not isinstance(a['expect'], tuple):
+                return 'bad', 'expect is %s, not a tuple of lists' % type(a['expect']).__name__
+            g = a['grade_decimal']
+            res.append({'expect': [entries(x) for x in a['expect']],
+                        'grade': 'g0' if g == 0 else 'g1' if g == 1 else 'ghalf' if g == 0.5 else '?',
+                        'msg': 'm_empty' if a['msg'] == '' else 'm_text' if a['msg'] == MSG else '?',
+                        'ok': 'true' if a['ok'] is True else 'false' if a['ok'] is False else 'partial' if a['ok'] == 'partial' else '?'})
+    except ValueError as e:
+        return 'bad', str(e)
+    return 'ok', res
+
+
+def observe_listans(cls, la, L):
+    C = L[cls]
+    sub = 'subgraders' if cls == 'ListGrader' else 'subgrader'
+    s1, e1, o1 = attempt(lambda: C({sub: L['StringGrader'](), 'answers': listans_value(la)}), L)
+    s2, e2, o2 = attempt(lambda: C(**{sub: L['StringGrader'](), 'answers': listans_value(la)}), L)
+    obs = {'status': s1, 'exc': e1, 'status_kw': s2, 'exc_kw': e2, 'canon': [], 'canon_ok': True, 'kwargs_equal': s1 == s2,
+           'idempotent': True, 'detail': ''}
+    if s1 == 'accept':
+        st, proj = project_listans(cls, o1.config['answers'])
+        if st == 'bad':
+            obs['canon_ok'] = False
+            obs['detail'] = proj
+        else:
+            obs['canon'] = proj
+        if s2 == 'accept':
+            obs['kwargs_equal'] = deq(o1.config, o2.config)
+        facts = check_object(cls, o1, L)
+        obs['idempotent'] = facts['idempotent'] is not False
+        if not obs['idempotent']:
+            obs['detail'] = facts.get('idem_detail')
+    return obs
 
 
 # ---------------------------------------------------------------- ListGrader groupings
@@ -525,6 +606,8 @@ def observe_square(c, L):
 def judge_simple(expect, obs, what):
     """lgroup / nested / square: verdict, exception family, kwargs, canonical answers, idempotence"""
     probs = []
+    if expect == 'skip':
+        return probs
     for form, s, e in (('dict', obs['status'], obs['exc']), ('kwargs', obs['status_kw'], obs['exc_kw'])):
         if s == 'other':
             probs.append(('exception', 'non-config-exception:%s' % e, 'success or configuration/validation error',
@@ -577,6 +660,11 @@ def replay_states(states, extra):
             probs = judge_answers(expect, out['canon'], obs)
             case = {'part': kind, 'cls': c['cls'], 'ans': c['ans']}
             res['keys'].add((kind, c['cls'], expect, len(c['ans']['items']), c['ans']['tup']))
+        elif kind == 'listans':
+            obs = observe_listans(c['cls'], c['la'], L)
+            probs = judge_answers(expect, out['canon'], obs)
+            case = {'part': kind, 'cls': c['cls'], 'ans': c['la']}
+            res['keys'].add((kind, c['cls'], expect, len(c['la']['alts']), c['la']['alts'][0]['form']))
         elif kind == 'lgroup':
             obs = observe_lg(c, L)
             probs = judge_simple(expect, obs, 'listgrader')
@@ -603,9 +691,18 @@ def replay_states(states, extra):
     return res
 
 
+def refine(klass, case):
+    """stable sub-class for known root causes"""
+    kinds = {k for _, k in case.get('cfg', [])}
+    if klass == 'not-idempotent' and 'dict_const_del' in kinds:
+        return 'not-idempotent:removed-default-constant'
+    return klass
+
+
 def report(ctx, b):
     sig = dict(b['case'])
-    sig.update({'aspect': b['aspect'], 'class': b['class'], 'expected': b['expected'], 'observed': b['observed']})
+    sig.update({'aspect': b['aspect'], 'class': refine(b['class'], b['case']), 'expected': b['expected'],
+                'observed': b['observed']})
     where = sig.get('cls') or sig.get('part')
     ctx.violation(sig, '%s %s: %s -- documented: %s, code: %s' % (
         where, describe(sig), b['aspect'], b['expected'], b['observed']))
@@ -658,7 +755,7 @@ def rand_records(rng, n, table):
             have = {o for o, _ in pairs}
             for o, vals in table[cls].items():        # keep required options unless this case drops one on purpose
                 if any(v == 'ABSENT' for v, _ in vals) and o not in have and o != '_value' and rng.random() < .95:
-                    good = [v for v, e in vals if e == 'accept']
+                    good = [v for v, e in vals if e == 'accept' and v != 'ABSENT']
                     if good:
                         pairs.append([o, rng.choice(good)])
             if '_value' in table[cls] and not any(o != '_value' for o in table[cls] if o != '-'):
@@ -669,6 +766,28 @@ def rand_records(rng, n, table):
             tup = rng.random() < .7
             items = [rand_item(rng, True) for _ in range(rng.randint(0, 5) if tup else 1)]
             recs.append({'id': i, 'ev': 'answers', 'cls': cls, 'ans': {'tup': tup, 'items': items}})
+        elif r < .82:
+            cls = rng.choice(['ListGrader', 'SingleListGrader'])
+            n = rng.randint(1, 5)
+
+            def entry():
+                tup = rng.random() < .3
+                return {'tup': tup, 'items': [rand_item(rng, True) for _ in range(rng.randint(1, 3) if tup else 1)]}
+
+            def alt():
+                form = rng.choice(['list', 'list', 'dict', 'string'] if cls == 'SingleListGrader' else ['list'] * 8 + ['dict', 'string'])
+                if form == 'string':
+                    ents = [{'tup': False, 'items': [{'form': 'atom', 'expect': [rng.choice(['e1', 'e2', 'e3'])], 'etup': False,
+                                                      'grade': 'absent', 'msg': 'absent', 'ok': 'absent', 'extra': False}]}
+                            for _ in range(n)]
+                else:
+                    ents = [entry() for _ in range(n if rng.random() < .9 else rng.randint(1, 5))]
+                return {'form': form, 'entries': ents,
+                        'grade': rng.choice(['absent', 'absent', 'ghalf', 'g0', 'g1', 'g2']) if form == 'dict' else 'absent',
+                        'msg': rng.choice(['absent', 'm_text', 'm_empty', 'm_int']) if form == 'dict' else 'absent'}
+            bare = rng.random() < .4
+            recs.append({'id': i, 'ev': 'listans', 'cls': cls,
+                         'la': {'bare': bare, 'alts': [alt() for _ in range(1 if bare else rng.randint(1, 3))]}})
         elif r < .9:
             one = rng.random() < .4
             subs = [rng.choice(['item', 'list']) for _ in range(1 if one else rng.randint(2, 4))]
@@ -714,8 +833,8 @@ def observe_chunk(recs, extra):
                     r['dictcfg'] = True
                     r['defaults'] = sorted([k, v] for k, v in od.items())
                 r['idempotent'] = check_object(r['cls'], first[2], L)['idempotent'] is not False
-        elif ev == 'answers':
-            o = observe_answers(r['cls'], r['ans'], L)
+        elif ev in ('answers', 'listans'):
+            o = observe_answers(r['cls'], r['ans'], L) if ev == 'answers' else observe_listans(r['cls'], r['la'], L)
             r.update(status=o['status'], status_kw=o['status_kw'], exc=o['exc'] or o['exc_kw'] or '', canon=o['canon'],
                      canon_ok=o['canon_ok'], kwargs_equal=o['kwargs_equal'], idempotent=o['idempotent'])
         else:
@@ -736,8 +855,8 @@ CLAUSE_CLASS = {
 def report_trace(ctx, r, clause):
     clause = str(clause)
     head = clause.split(':')[0]
-    klass = CLAUSE_CLASS.get(head) or 'non-config-exception:%s' % r.get('exc')
-    case = {k: r[k] for k in r if k in ('cls', 'cfg', 'ans', 'chain', 'ordered', 'subs', 'one', 'grouping', 'nans', 'ntup',
+    klass = refine(CLAUSE_CLASS.get(head) or 'non-config-exception:%s' % r.get('exc'), r)
+    case = {k: r[k] for k in r if k in ('cls', 'cfg', 'ans', 'la', 'chain', 'ordered', 'subs', 'one', 'grouping', 'nans', 'ntup',
                                         'symmetry', 'traceless', 'determinant', 'complex', 'dimension')}
     sig = {'part': 'trace:' + r['ev']}
     sig.update(case)
@@ -748,7 +867,7 @@ def report_trace(ctx, r, clause):
 
 
 # ---------------------------------------------------------------- driver
-PARTS = ['single', 'mathx', 'answers', 'lgroup', 'nested', 'square']
+PARTS = ['single', 'mathx', 'answers', 'listans', 'lgroup', 'nested', 'square']
 DOC_CONFLICTS = [
     'SumGrader.samples: docstring "default changed to 2", docs/grading_math/sum_grader.md "default 1"',
     'SumGrader.infty_val_fact: docs/grading_math/sum_grader.md spells it inftY_val_fact',
